@@ -132,14 +132,16 @@ void clmNames(Ctx& ctx)
 	// base names of 1, 7, 8 (fit) and 9, 10, 12, 13, 16 (do not fit) characters x extensions of every length incl. none:
 	// the 8-character limit applies to the name without its extension, whatever the extension looks like
 	for (const std::string& base : { std::string("a"), std::string("abcdefg"), std::string("abcdefgh"), std::string("ABCDEFG8"), std::string("abcdefghi"), std::string("a23456789"), std::string("abcdefghij"), std::string("twelvechars_"), std::string("thirteenchars"), std::string("abcdefghijklmnop"),
-		std::string("track\\boss0001"), std::string("a\\b"), std::string("long name with spaces") })   // a backslash is an ordinary file name character here
+		std::string("track\\boss0001"), std::string("a\\b"), std::string("long name with spaces"),
+		// the field holds 8 bytes, however few characters they spell: four two-byte letters fit, five do not, nor do three three-byte ones
+		std::string("\xC3\xBC\xC3\xA4\xC3\xB6\xC3\x9F"), std::string("m\xC3\xBCsic\xC3\xA4\xC3\xB6"), std::string("\xC3\xBC\xC3\xA4\xC3\xB6\xC3\x9F\xC3\xA9"), std::string("\xE2\x82\xAC\xE2\x82\xAC\xE2\x82\xAC"), std::string("caf\xE9\xE9\xE9\xE9\xE9\xE9") })   // a backslash is an ordinary file name character here
 	for (const std::string& ext : { std::string(".wav"), std::string(".WAV"), std::string(""), std::string(".w"), std::string(".wv"), std::string(".wave"), std::string(".") }) {
 		std::string p = dir + "/" + base + ext;
 		mc::writeFile(p, bytes);
 		std::string out = dir + "/n.clm"; ::unlink(out.c_str());
 		auto o = mc::guarded([&] { Archive::ClmFile::CreateArchive(out, { p }); });
 		ctx.transition();
-		std::string key = "CLM name '" + base + "' (" + std::to_string(base.size()) + " characters)";
+		std::string key = "CLM name '" + base + "' (" + std::to_string(base.size()) + " bytes)";
 		if (base.size() <= 8) {
 			ctx.count("clm/name-of-8");
 			if (o.cls != 'R') { ctx.violation("C20/clm/refused-8-character-name", key, o.what); continue; }
@@ -175,6 +177,44 @@ void prefixLimit(Ctx& ctx, const char* name)
 				uint64_t field = 0; for (std::size_t i = 0; i < sizeof(S); ++i) field |= uint64_t(got[i]) << (8 * i);
 				if (field != z || got.size() != sizeof(S) + z) ctx.violation(std::string("C20/prefix/field-value/") + name, key, std::to_string(field));
 			}
+		}
+	}
+}
+
+// 32- and 64-bit prefixes: a container of 2^32 elements cannot be built, so a stand-in reports such a size (its data pointer is
+// never followed: the writer below only counts). Refusal iff the size does not fit the prefix, nothing written on refusal.
+struct ClaimsToBeHuge {
+	using value_type = char;
+	std::size_t n;
+	explicit ClaimsToBeHuge(std::size_t n) : n(n) {}
+	~ClaimsToBeHuge() {}                                   // not trivially copyable: takes the container overloads
+	std::size_t size() const { return n; }
+	const char* data() const { static const char few[16] = { 0 }; return few; }
+	const char* begin() const { return data(); }
+	const char* end() const { return data() + (n < 16 ? n : 16); }
+};
+struct OnlyCounts : Stream::Writer {
+	uint64_t total = 0; std::vector<uint8_t> head;
+	void WriteImplementation(const void* buffer, std::size_t size) override { if (head.size() < 8 && size <= 8) { const uint8_t* p = static_cast<const uint8_t*>(buffer); head.insert(head.end(), p, p + size); } total += size; }
+};
+template <class S>
+void widePrefixLimit(Ctx& ctx, const char* name)
+{
+	const uint64_t maxv = uint64_t(std::numeric_limits<S>::max());
+	std::vector<uint64_t> sizes = { 0, 5, maxv - 1, maxv };
+	if (maxv < ~uint64_t(0)) for (uint64_t z : { maxv + 1, maxv + 6, maxv * 2 + 1, ~uint64_t(0) >> 1, ~uint64_t(0) }) sizes.push_back(z);
+	for (uint64_t z : sizes) {
+		if (z > uint64_t(std::numeric_limits<std::size_t>::max())) continue;
+		OnlyCounts w; ClaimsToBeHuge c{ std::size_t(z) };
+		auto o = mc::guarded([&] { w.template Write<S>(c); });
+		ctx.transition();
+		std::string key = std::string("Write<") + name + ">(container reporting " + std::to_string(z) + " elements)";
+		if (z > maxv) { ctx.count("prefix/beyond-the-limit-wide"); if (o.cls == 'R') ctx.violation(std::string("C20/prefix/accepted-oversize/") + name, key, "prefix written: " + mc::hex(w.head.data(), w.head.size())); else if (w.total != 0) ctx.violation("C20/prefix/partial-output-on-refusal", key, std::to_string(w.total) + " bytes"); }
+		else {
+			ctx.count("prefix/at-the-limit-wide");
+			if (o.cls != 'R') { ctx.violation(std::string("C20/prefix/refused-fitting/") + name, key, o.what); continue; }
+			uint64_t field = 0; for (std::size_t i = 0; i < sizeof(S) && i < w.head.size(); ++i) field |= uint64_t(w.head[i]) << (8 * i);
+			if (w.head.size() < sizeof(S) || field != z || w.total != sizeof(S) + z) ctx.violation(std::string("C20/prefix/field-value/") + name, key, std::to_string(field) + ", " + std::to_string(w.total) + " bytes in all");
 		}
 	}
 }
@@ -315,7 +355,7 @@ void runCase(std::size_t i, Ctx& ctx)
 		}
 		break;
 	case 2: clmNames(ctx); break;
-	case 3: prefixLimit<uint8_t>(ctx, "u8"); prefixLimit<int8_t>(ctx, "i8"); prefixLimit<uint16_t>(ctx, "u16"); prefixLimit<int16_t>(ctx, "i16"); ctx.state(); ctx.trace(); break;
+	case 3: prefixLimit<uint8_t>(ctx, "u8"); prefixLimit<int8_t>(ctx, "i8"); prefixLimit<uint16_t>(ctx, "u16"); prefixLimit<int16_t>(ctx, "i16"); widePrefixLimit<uint32_t>(ctx, "u32"); widePrefixLimit<int32_t>(ctx, "i32"); widePrefixLimit<uint16_t>(ctx, "u16"); widePrefixLimit<uint64_t>(ctx, "u64"); widePrefixLimit<int64_t>(ctx, "i64"); ctx.state(); ctx.trace(); break;
 	case 4: mapContainerSize(ctx); break;
 	case 6: framesModulo(ctx); break;
 	case 7: volBoundarySweep(ctx); break;
